@@ -73,7 +73,7 @@ func vpPositions(s string, stride int) []int {
 
 func init() {
 	vpRegister("tamper", func(t *testing.T, env *vpEnv) {
-		keys, groups := vpGroup(env.cases, func(c *vpCase) string { return fmt.Sprint(c.In["secret"], c.In["cred"]) })
+		keys, groups := vpGroup(env.cases, func(c *vpCase) string { return fmt.Sprint(c.In["secret"], c.In["cred"], c.In["expire"]) })
 		vpRunGroups(keys, groups, env.seed, func(rng *mrand.Rand, key string, cs []*vpCase) {
 			in0 := cs[0].In
 			cred := vpS(in0, "cred")
@@ -82,7 +82,12 @@ func init() {
 				store = "redis"
 			}
 			secret := vpSecretOf(vpS(in0, "secret"))
-			w, err := vpNewWorld(&vpCfg{Store: store, CookieSecret: secret, CSRFPerRequest: cred == "csrf_perreq"})
+			wcfg := &vpCfg{Store: store, CookieSecret: secret, CSRFPerRequest: cred == "csrf_perreq"}
+			if vpS(in0, "expire") == "zero" {
+				zero := 0
+				wcfg.Expire = &zero
+			}
+			w, err := vpNewWorld(wcfg)
 			if err != nil {
 				for _, c := range cs {
 					env.emit(vpOut{ID: c.ID, Err: "world: " + err.Error()})
